@@ -310,7 +310,16 @@ def ast_repr(node):
             return tuple(sorted((str(k), r(v)) for k, v in o.items()))
         if isinstance(o, (str, int, float, bool)) or o is None:
             return o
-        return repr(o)
+        if isinstance(o, type):
+            return "<class %s>" % o.__name__
+        import enum
+
+        if isinstance(o, enum.Enum):
+            return "<enum %s.%s>" % (type(o).__name__, o.name)
+        if isinstance(o, (set, frozenset)):
+            return ("set", tuple(sorted(repr(r(x)) for x in o)))
+        # never the default repr: it embeds the object's address
+        return "<instance of %s %s>" % (type(o).__name__, tuple(sorted((k, repr(r(v))) for k, v in vars(o).items())) if hasattr(o, "__dict__") else "")
 
     return repr(r(node))
 
